@@ -106,6 +106,20 @@ def ns_job(job) -> dict:
                               f"stream with namespace declarations rejected/misread by the "
                               f"reference decoder: {r[1]} case={case}", case,
                               {"bytes": data.hex()})
+            # declarations on while the caller asks for protocol version 1 explicitly: whatever
+            # the writer makes of it, the stream must be valid (no namespace rows in version 1)
+            try:
+                v1 = write_v1(api, cls, seq, bindings, preset)
+            except Exception:  # noqa: BLE001
+                acc.counters["write_raised"] += 1
+            else:
+                acc.counters["streams"] += 1
+                r = validate(v1, True, T.norm_seq(seq), as_set=api == "rdflib")
+                if r is not None:
+                    c2 = {**case, "req_version": 1}
+                    acc.violation({"api": api, "cls": cls, "writer": "namespaces-v1", "fail": r[0]},
+                                  f"declarations on, version=1 requested: {r[1]} case={c2}", c2,
+                                  {"bytes": v1.hex()})
             # the same containers (bindings and all) written with the option off: version 1,
             # which has no namespace rows
             try:
@@ -122,6 +136,23 @@ def ns_job(job) -> dict:
                               f"rejected/misread by the reference decoder: {r[1]} case={c2}", c2,
                               {"bytes": off.hex()})
     return acc.out()
+
+
+def write_v1(api: str, cls: str, seq, bindings, preset) -> bytes:
+    import io  # noqa: PLC0415
+
+    from mc.checks import c14  # noqa: PLC0415
+    from pyjelly.options import StreamParameters  # noqa: PLC0415
+
+    opts = DR.make_options(cls, preset, 2, True, ns=True, generalized=False, rdf_star=False)
+    opts.params = StreamParameters(generalized_statements=False, rdf_star=False, version=1,
+                                   delimited=True, namespace_declarations=True)
+    if api == "generic":
+        return DR.g_write(seq, cls, opts, "stream_frames_sink", bindings=bindings)
+    g = c14.r_source(cls, seq, bindings)
+    out = io.BytesIO()
+    g.serialize(destination=out, format="jelly", stream=DR.r_stream(cls, opts), options=opts)
+    return out.getvalue()
 
 
 def declared_job(job) -> dict:
@@ -371,6 +402,10 @@ def replay(case: dict) -> list:
         api, cls = case["api"], case["cls"]
         bindings = [c14.BINDINGS[i] for i in case["bindings"]]
         seq = [T.from_json(x) for x in case["seq"]]
+        if case.get("req_version"):
+            v1 = write_v1(api, cls, seq, bindings, tuple(case["preset"]))
+            r = validate(v1, True, T.norm_seq(seq), as_set=api == "rdflib")
+            return [r[1]] if r else []
         if case.get("ns_off"):
             off = c14.write(api, cls, seq, bindings, tuple(case["preset"]), False)
             r = validate(off, True, T.norm_seq(seq), expect_ns=[], as_set=api == "rdflib")
